@@ -1,6 +1,7 @@
 package c01
 
 import (
+	"errors"
 	"bufio"
 	"bytes"
 	"context"
@@ -74,6 +75,12 @@ func workerEnv() *env.Env {
 	e.Define("takesInt", func(i int64, s string) string { return s })
 	e.Define("takesStrs", func(s ...string) int { return len(s) })
 	e.Define("takesPtr", func(p *int32) bool { return p == nil })
+	// Go functions whose declared result is an interface type with methods, returning nil (what every
+	// `func(...) error` does on success) or a value
+	e.Define("nerr", func() error { return nil })
+	e.Define("verr", func() error { return errors.New("verr") })
+	e.Define("nstr", func() fmt.Stringer { return nil })
+	e.Define("nerr2", func(x interface{}) (interface{}, error) { return x, nil })
 	e.Define("takesPtrs", func(ps ...*string) int { return len(ps) })
 	e.Define("cb", func(f func(int64) int64) int64 { return f(3) })
 	e.Define("each", func(l []interface{}, f func(interface{}) interface{}) []interface{} {
